@@ -105,7 +105,8 @@ class Registry(object):
     def function(self, name, module=None):
         """module-level function contract by basename (optionally inside dotted module prefix)"""
         cands = [c for c in self.by_base.get(name, []) if c.kind != 'lemma' and '@' not in c.qual]
-        cands = [c for c in cands if not (len(c.qual.split('.')) >= 2 and c.qual.split('.')[-2][:1].isupper())] or []
+        known = set(self.program.classes) | set(self.classes)
+        cands = [c for c in cands if not (len(c.qual.split('.')) >= 2 and c.qual.split('.')[-2] in known)] or []
         if module:
             pref = [c for c in cands if c.qual.startswith(module + '.')]
             if pref:
